@@ -132,6 +132,8 @@ type Ctx struct {
 	fresh  int
 	Vars   []*Term // declared variables, in creation order
 	varIdx map[string]*Term
+	extractMemo map[[3]int32]*Term
+	selectMemo  map[[2]int32]*Term
 }
 
 func NewCtx() *Ctx {
@@ -157,6 +159,9 @@ func (c *Ctx) mk(op Op, s Sort, k uint64, name string, a ...*Term) *Term {
 	}
 	if t, ok := c.tab[key]; ok {
 		return t
+	}
+	if c.n > 30_000_000 {
+		panic(&ExecFail{Msg: "term budget exceeded (30M nodes): the encoding blew up"})
 	}
 	t := &Term{ID: c.n, Op: op, Sort: s, K: k, Name: name}
 	if len(a) > 0 {
@@ -848,10 +853,27 @@ func (c *Ctx) Concat(hi, lo *Term) *Term {
 }
 
 // Extract bits hi..lo inclusive. hi < lo yields a zero-width term (only valid inside Concat/ZeroExt).
+// Memoised: pushing an extract through shared ite-DAGs would otherwise revisit subterms exponentially.
 func (c *Ctx) Extract(a *Term, hi, lo int) *Term {
 	if hi < lo {
 		return &Term{ID: -1, Op: OConst, Sort: BV(0)}
 	}
+	if a.Op == OIte || a.Op == OBvAnd || a.Op == OBvOr || a.Op == OBvXor || a.Op == OConcat {
+		key := [3]int32{a.ID, int32(hi), int32(lo)}
+		if r, ok := c.extractMemo[key]; ok {
+			return r
+		}
+		r := c.extract0(a, hi, lo)
+		if c.extractMemo == nil {
+			c.extractMemo = map[[3]int32]*Term{}
+		}
+		c.extractMemo[key] = r
+		return r
+	}
+	return c.extract0(a, hi, lo)
+}
+
+func (c *Ctx) extract0(a *Term, hi, lo int) *Term {
 	w := hi - lo + 1
 	if lo == 0 && w == a.Sort.W {
 		return a
@@ -976,7 +998,16 @@ func (c *Ctx) Select(a, i *Term) *Term {
 		}
 		return c.Ite(e, a.A[2], c.Select(a.A[0], i))
 	case OIte:
-		return c.Ite(a.A[0], c.Select(a.A[1], i), c.Select(a.A[2], i))
+		key := [2]int32{a.ID, i.ID}
+		if r, ok := c.selectMemo[key]; ok {
+			return r
+		}
+		r := c.Ite(a.A[0], c.Select(a.A[1], i), c.Select(a.A[2], i))
+		if c.selectMemo == nil {
+			c.selectMemo = map[[2]int32]*Term{}
+		}
+		c.selectMemo[key] = r
+		return r
 	}
 	return c.mk(OSelect, BV(a.Sort.W), 0, "", a, i)
 }
